@@ -566,7 +566,7 @@ func TestVerif(t *testing.T) {
 	r.Set("record_kinds", len(allKinds))
 	r.Set("connection_states", len(w.states))
 	r.Set("exhaustive_1_record", true)
-	r.Set("exhaustive_2_record_multisets", r.Thorough())
+	r.Set("exhaustive_2_record_multisets", true)
 
 	// Group A: the empty set and every single record kind against every state
 	// (one case per state).
@@ -584,9 +584,9 @@ func TestVerif(t *testing.T) {
 		})
 	}
 
-	// Group B (thorough): every multiset of two record kinds against every state
-	// (one case per first kind).
-	if r.Thorough() || r.Replaying() {
+	// Group B (both tiers; it costs a few seconds): every multiset of two record
+	// kinds against every state (one case per first kind).
+	{
 		for a := range allKinds {
 			r.Run(groupPairs+a, fmt.Sprintf("pairs/%d", a), func(c *rep.Case) {
 				m := &monitor{w: w, r: r, c: c, shapes: map[string]struct{}{}, cnt: map[string]int64{}}
@@ -613,7 +613,7 @@ func TestVerif(t *testing.T) {
 			usable = append(usable, k)
 		}
 	}
-	nb := r.N(75, 2500)
+	nb := r.N(75, 10000)
 	for b := 0; b < nb; b++ {
 		r.Run(groupSampled+b, fmt.Sprintf("sampled/%d", b), func(c *rep.Case) {
 			p := prng.New(r.Seed(), uint64(b), "c13")
